@@ -257,6 +257,22 @@ def run(ctx):
                 ctx.cls("directed")
             ctx.sample("directed", {"base": G.render(bases[0]), "variants": [u for _, u in single_variants(bases[0], rng)][:6]})
             ctx.exhaustive_space("every single transformation x applicable position on %d directed bases" % len(bases), sum(len(single_variants(b, rng)) for b in bases))
+        # every space / separator / control / format code point, escaped, at the trailing edge of each component (where a
+        # str.strip() of a later pass could eat it once decoded): fix points and mode round-trips
+        if ctx.shard == 0:
+            import unicodedata
+            from urllib.parse import quote as _q
+            cps = [c for c in range(0x3100) if unicodedata.category(chr(c)) in ("Zs", "Zl", "Zp", "Cc", "Cf")] + [0xFEFF, 0xFFF9, 0xE0001]
+            n_edge = 0
+            for c in cps:
+                esc = _q(chr(c), safe="")
+                for b in (G.base_case(path=[["a", esc]]), G.base_case(path=[[esc, "a"]]), G.base_case(path=[["a"]], fragment=["f", esc]),
+                          G.base_case(path=[["a"]], query=[(["k"], ["v", esc])]), G.base_case(path=[["a"]], query=[(["k", esc], None)]),
+                          G.base_case(user=["u", esc], password=["p", esc]), G.base_case(path=[["a"]], fragment=[esc])):
+                    check_fixpoints(ctx, fn, b)
+                    n_edge += 1
+                    ctx.count("escaped-space-or-control-at-edge")
+            ctx.exhaustive_space("each of the %d space/separator/control/format code points below U+3100 (+3), escaped, at 7 component edges" % len(cps), n_edge)
         # frames: every 1-2 token sequence per component -> fix points, single variants
         L = 2
         idx = 0
